@@ -1,10 +1,17 @@
 #!/bin/bash
-# MANIFEST.setup_cmd: pre-build the harness (warms the Go build cache) from
-# files on disk only, and run the harness self-test.
+# MANIFEST.setup_cmd: pre-build the harness and the rewriter (warms the Go
+# build cache) from files on disk only, and run a smoke test.
 set -euo pipefail
 cd "$(dirname "$0")/.."
 . scripts/env.sh
+mkdir -p bin evidence replays
+( cd tools/rewriter && go build -o ../../bin/rewriter . )
 bin=$(scripts/build.sh | tail -1)
 mv -f "$bin" bin/mc
 bin/mc list >/dev/null
+# warm the cache of the overlay (shim) build used by C10
+scratch=$(mktemp -d "${TMPDIR:-/var/tmp}/verif-setup.XXXXXX")
+trap 'rm -rf "$scratch"' EXIT
+bin/rewriter -repo /repo -out "$scratch/ov"
+( cd harness && go build -tags "verif shim" -overlay "$scratch/ov/overlay.json" -o "$scratch/mcshim" ./cmd/mc )
 echo "setup ok"
